@@ -2,7 +2,9 @@ package props
 
 import (
 	"fmt"
+	"strings"
 
+	"verif/gen"
 	"verif/mc"
 	"verif/rec"
 	"verif/ref"
@@ -16,13 +18,13 @@ func init() {
 		ID:    "C03",
 		Level: "exploration",
 		Rule: "engine B+F: every string magic+<=2 (thorough <=3) bytes; for each of 2x256 opcodes every operand-width combination, payload class per position, repeat count and truncation point; " +
-			"all instruction sequences to depth 3 (thorough 4) over a 30-fragment alphabet; the metadata shape space; every prefix of 971 corpus files and every single-byte substitution of the testdata files and small icons (thorough: whole corpus). " +
+			"all instruction sequences to depth 3 (thorough 4) over a 30-fragment alphabet; the metadata shape space; every prefix and every single-byte substitution of all 971 corpus files (31M strings). " +
 			"Each string is decoded by decode.Decode into a recorder and by the reference parser; accept/reject and the call list must agree bit for bit. " +
 			"distinct = hash of (accepted, sequence of call kinds/ADJ/flags); non-trivial = accepted and delivering at least one drawing operation",
 		Assumptions: []string{"reference parser /verif/ref written from spec/iconvg-spec-v0.md", "error kinds are not compared (the spec does not define them)"},
-		Units:       func(tier string) int { return len(genUnits(tier)) },
+		Units:       func(tier string) int { return len(c03Units(tier)) },
 		Run: func(w *mc.W, u int) {
-			unit := genUnits(w.Tier)[u]
+			unit := c03Units(w.Tier)[u]
 			st := &c03State{}
 			unit.Each(func(b []byte) bool {
 				c03Check(w, st, b, unit.Name)
@@ -32,6 +34,30 @@ func init() {
 		Replay: bytesReplay(func(w *mc.W, b []byte, unit string) { c03Check(w, &c03State{}, b, unit) }),
 		Post:   postDistinct(100),
 	})
+}
+
+// c03Units: the quick tier already includes every single-byte substitution of the
+// whole corpus (cheap for this check: one decode + one reference parse per input).
+var c03UnitsCache = map[string][]gen.Unit{}
+
+func c03Units(tier string) []gen.Unit {
+	if u, ok := c03UnitsCache[tier]; ok {
+		return u
+	}
+	us := genUnits(tier)
+	if tier != "thorough" {
+		seen := map[string]bool{}
+		for _, u := range us {
+			seen[u.Name] = true
+		}
+		for _, u := range genUnits("thorough") {
+			if strings.HasPrefix(u.Name, "corpus/subst/") && !seen[u.Name] {
+				us = append(us[:len(us):len(us)], u)
+			}
+		}
+	}
+	c03UnitsCache[tier] = us
+	return us
 }
 
 type c03State struct {
